@@ -110,9 +110,11 @@ Proof. exact truncation_lendata. Qed.
 Print Assumptions c02_truncation_lendata.
 
 (* "whose body no longer matches its flags (undecryptable, not decompressible, reference count
-   larger than the body) is reported as an error instead of being delivered as a packet" *)
+   larger than the body) is reported as an error instead of being delivered as a packet" —
+   for every body, the empty one included (flags_mismatch: encrypted flag and no decryptor;
+   compressed flag and the (decrypted) body is not a zlib stream) *)
 Theorem c02_flag_body_mismatch_v1 : forall dec unzip hd s p0 h b,
-  r_out (read_head_body_v1 s) = Ok (h, b) -> 0 < lenN b ->
+  r_out (read_head_body_v1 s) = Ok (h, b) ->
   flags_mismatch dec unzip hd (byte_at 3 h) b ->
   is_err (r_out (read_packet_v1 dec unzip hd s p0)).
 Proof. exact flag_mismatch_v1. Qed.
@@ -120,7 +122,7 @@ Print Assumptions c02_flag_body_mismatch_v1.
 
 Theorem c02_flag_body_mismatch_v2 : forall dec unzip hd s p0 h b,
   r_out (read_head_body_v2 s) = Ok (h, b) ->
-  byte_at 5 h * 4 < lenN b ->
+  byte_at 5 h * 4 <= lenN b ->
   flags_mismatch dec unzip hd (byte_at 4 h) (dropN (byte_at 5 h * 4) b) ->
   is_err (r_out (read_packet_v2 dec unzip hd s p0)).
 Proof. exact flag_mismatch_v2. Qed.
